@@ -1,0 +1,687 @@
+/*
+ * Verification facade.  Compiled only with the cargo feature `verif`.
+ *
+ * Add-only: nothing in this module is referenced by the rest of the crate and nothing here changes
+ * the behaviour of any existing item.  It exposes, in neutral plain-data types, the crate-private
+ * protocol engine, codec, validators and client state machine so that an out-of-crate harness can
+ * drive them with a virtual clock and observe them.
+ */
+
+#![allow(missing_docs)]
+#![allow(dead_code)]
+
+use crate::alias::*;
+use crate::client::*;
+use crate::client::config::*;
+use crate::decode::*;
+use crate::encode::*;
+use crate::error::GneissError;
+use crate::mqtt::*;
+use crate::protocol::*;
+use crate::validate::*;
+
+use std::collections::VecDeque;
+use std::time::Duration;
+
+// ------------------------------------------------------------------------------------------------
+// Neutral packet representation: plain data, every field public, reason codes and enums as raw
+// integers.  Carries no codec logic.
+// ------------------------------------------------------------------------------------------------
+
+pub type VProps = Option<Vec<(String, String)>>;
+
+#[derive(Clone, Debug, Default, PartialEq, Eq, Hash, PartialOrd, Ord)]
+pub struct VPublish {
+    pub packet_id: u16,
+    pub topic: String,
+    pub qos: u8,
+    pub dup: bool,
+    pub retain: bool,
+    pub payload: Option<Vec<u8>>,
+    pub payload_format: Option<u8>,
+    pub message_expiry: Option<u32>,
+    pub topic_alias: Option<u16>,
+    pub response_topic: Option<String>,
+    pub correlation_data: Option<Vec<u8>>,
+    pub subscription_identifiers: Option<Vec<u32>>,
+    pub content_type: Option<String>,
+    pub user_properties: VProps,
+}
+
+/// PUBACK / PUBREC / PUBREL / PUBCOMP
+#[derive(Clone, Debug, Default, PartialEq, Eq, Hash, PartialOrd, Ord)]
+pub struct VAck {
+    pub packet_id: u16,
+    pub reason_code: u8,
+    pub reason_string: Option<String>,
+    pub user_properties: VProps,
+}
+
+#[derive(Clone, Debug, Default, PartialEq, Eq, Hash, PartialOrd, Ord)]
+pub struct VSubscription {
+    pub topic_filter: String,
+    pub qos: u8,
+    pub no_local: bool,
+    pub retain_as_published: bool,
+    pub retain_handling: u8,
+}
+
+#[derive(Clone, Debug, Default, PartialEq, Eq, Hash, PartialOrd, Ord)]
+pub struct VSubscribe {
+    pub packet_id: u16,
+    pub subscriptions: Vec<VSubscription>,
+    pub subscription_identifier: Option<u32>,
+    pub user_properties: VProps,
+}
+
+/// SUBACK / UNSUBACK
+#[derive(Clone, Debug, Default, PartialEq, Eq, Hash, PartialOrd, Ord)]
+pub struct VMultiAck {
+    pub packet_id: u16,
+    pub reason_string: Option<String>,
+    pub user_properties: VProps,
+    pub reason_codes: Vec<u8>,
+}
+
+#[derive(Clone, Debug, Default, PartialEq, Eq, Hash, PartialOrd, Ord)]
+pub struct VUnsubscribe {
+    pub packet_id: u16,
+    pub topic_filters: Vec<String>,
+    pub user_properties: VProps,
+}
+
+#[derive(Clone, Debug, Default, PartialEq, Eq, Hash, PartialOrd, Ord)]
+pub struct VConnect {
+    pub keep_alive: u16,
+    pub clean_start: bool,
+    pub client_id: Option<String>,
+    pub username: Option<String>,
+    pub password: Option<Vec<u8>>,
+    pub session_expiry: Option<u32>,
+    pub request_response_information: Option<bool>,
+    pub request_problem_information: Option<bool>,
+    pub receive_maximum: Option<u16>,
+    pub topic_alias_maximum: Option<u16>,
+    pub maximum_packet_size: Option<u32>,
+    pub authentication_method: Option<String>,
+    pub authentication_data: Option<Vec<u8>>,
+    pub will_delay_interval: Option<u32>,
+    pub will: Option<VPublish>,
+    pub user_properties: VProps,
+}
+
+#[derive(Clone, Debug, Default, PartialEq, Eq, Hash, PartialOrd, Ord)]
+pub struct VConnack {
+    pub session_present: bool,
+    pub reason_code: u8,
+    pub session_expiry: Option<u32>,
+    pub receive_maximum: Option<u16>,
+    pub maximum_qos: Option<u8>,
+    pub retain_available: Option<bool>,
+    pub maximum_packet_size: Option<u32>,
+    pub assigned_client_identifier: Option<String>,
+    pub topic_alias_maximum: Option<u16>,
+    pub reason_string: Option<String>,
+    pub user_properties: VProps,
+    pub wildcard_subscriptions_available: Option<bool>,
+    pub subscription_identifiers_available: Option<bool>,
+    pub shared_subscriptions_available: Option<bool>,
+    pub server_keep_alive: Option<u16>,
+    pub response_information: Option<String>,
+    pub server_reference: Option<String>,
+    pub authentication_method: Option<String>,
+    pub authentication_data: Option<Vec<u8>>,
+}
+
+#[derive(Clone, Debug, Default, PartialEq, Eq, Hash, PartialOrd, Ord)]
+pub struct VDisconnect {
+    pub reason_code: u8,
+    pub session_expiry: Option<u32>,
+    pub reason_string: Option<String>,
+    pub user_properties: VProps,
+    pub server_reference: Option<String>,
+}
+
+#[derive(Clone, Debug, Default, PartialEq, Eq, Hash, PartialOrd, Ord)]
+pub struct VAuth {
+    pub reason_code: u8,
+    pub authentication_method: Option<String>,
+    pub authentication_data: Option<Vec<u8>>,
+    pub reason_string: Option<String>,
+    pub user_properties: VProps,
+}
+
+#[derive(Clone, Debug, PartialEq, Eq, Hash, PartialOrd, Ord)]
+pub enum Pkt {
+    Connect(VConnect),
+    Connack(VConnack),
+    Publish(VPublish),
+    Puback(VAck),
+    Pubrec(VAck),
+    Pubrel(VAck),
+    Pubcomp(VAck),
+    Subscribe(VSubscribe),
+    Suback(VMultiAck),
+    Unsubscribe(VUnsubscribe),
+    Unsuback(VMultiAck),
+    Pingreq,
+    Pingresp,
+    Disconnect(VDisconnect),
+    Auth(VAuth),
+}
+
+#[derive(Clone, Copy, Debug, PartialEq, Eq, Hash, PartialOrd, Ord)]
+pub enum ErrKind {
+    Unimplemented,
+    OperationChannelFailure,
+    EncodingFailure,
+    DecodingFailure,
+    ProtocolError,
+    InvalidInboundTopicAlias,
+    InternalStateError,
+    ConnectionClosed,
+    OfflineQueuePolicyFailed,
+    AckTimeout,
+    ClientClosed,
+    UserInitiatedDisconnect,
+    ConnectionEstablishmentFailure,
+    StdIoError,
+    TlsError,
+    TransportError,
+    PacketValidationFailure,
+    OtherError,
+    MaxInterruptedRetriesExceeded,
+    /// conversion of a neutral packet into the crate's representation was impossible
+    /// (e.g. a reason code the crate's enum cannot hold)
+    Unrepresentable,
+}
+
+pub fn err_kind(e: &GneissError) -> ErrKind {
+    match e {
+        GneissError::Unimplemented(_) => ErrKind::Unimplemented,
+        GneissError::OperationChannelFailure(_) => ErrKind::OperationChannelFailure,
+        GneissError::EncodingFailure(_) => ErrKind::EncodingFailure,
+        GneissError::DecodingFailure(_) => ErrKind::DecodingFailure,
+        GneissError::ProtocolError(_) => ErrKind::ProtocolError,
+        GneissError::InvalidInboundTopicAlias(_) => ErrKind::InvalidInboundTopicAlias,
+        GneissError::InternalStateError(_) => ErrKind::InternalStateError,
+        GneissError::ConnectionClosed(_) => ErrKind::ConnectionClosed,
+        GneissError::OfflineQueuePolicyFailed(_) => ErrKind::OfflineQueuePolicyFailed,
+        GneissError::AckTimeout(_) => ErrKind::AckTimeout,
+        GneissError::ClientClosed(_) => ErrKind::ClientClosed,
+        GneissError::UserInitiatedDisconnect(_) => ErrKind::UserInitiatedDisconnect,
+        GneissError::ConnectionEstablishmentFailure(_) => ErrKind::ConnectionEstablishmentFailure,
+        GneissError::StdIoError(_) => ErrKind::StdIoError,
+        GneissError::TlsError(_) => ErrKind::TlsError,
+        GneissError::TransportError(_) => ErrKind::TransportError,
+        GneissError::PacketValidationFailure(_) => ErrKind::PacketValidationFailure,
+        GneissError::OtherError(_) => ErrKind::OtherError,
+        GneissError::MaxInterruptedRetriesExceeded(_) => ErrKind::MaxInterruptedRetriesExceeded,
+    }
+}
+
+// ------------------------------------------------------------------------------------------------
+// Conversions neutral <-> crate representation (field-by-field copies, no logic)
+// ------------------------------------------------------------------------------------------------
+
+fn props_in(p: &VProps) -> Option<Vec<UserProperty>> {
+    p.as_ref().map(|v| v.iter().map(|(n, val)| UserProperty { name: n.clone(), value: val.clone() }).collect())
+}
+
+fn props_out(p: &Option<Vec<UserProperty>>) -> VProps {
+    p.as_ref().map(|v| v.iter().map(|up| (up.name.clone(), up.value.clone())).collect())
+}
+
+fn qos_in(q: u8) -> Result<QualityOfService, ErrKind> {
+    QualityOfService::try_from(q).map_err(|_| ErrKind::Unrepresentable)
+}
+
+pub fn publish_in(p: &VPublish) -> Result<PublishPacket, ErrKind> {
+    Ok(PublishPacket {
+        packet_id: p.packet_id,
+        topic: p.topic.clone(),
+        qos: qos_in(p.qos)?,
+        duplicate: p.dup,
+        retain: p.retain,
+        payload: p.payload.clone(),
+        payload_format: match p.payload_format { None => None, Some(v) => Some(PayloadFormatIndicator::try_from(v).map_err(|_| ErrKind::Unrepresentable)?) },
+        message_expiry_interval_seconds: p.message_expiry,
+        topic_alias: p.topic_alias,
+        response_topic: p.response_topic.clone(),
+        correlation_data: p.correlation_data.clone(),
+        subscription_identifiers: p.subscription_identifiers.clone(),
+        content_type: p.content_type.clone(),
+        user_properties: props_in(&p.user_properties),
+    })
+}
+
+pub fn publish_out(p: &PublishPacket) -> VPublish {
+    VPublish {
+        packet_id: p.packet_id,
+        topic: p.topic.clone(),
+        qos: p.qos as u8,
+        dup: p.duplicate,
+        retain: p.retain,
+        payload: p.payload.clone(),
+        payload_format: p.payload_format.map(|v| v as u8),
+        message_expiry: p.message_expiry_interval_seconds,
+        topic_alias: p.topic_alias,
+        response_topic: p.response_topic.clone(),
+        correlation_data: p.correlation_data.clone(),
+        subscription_identifiers: p.subscription_identifiers.clone(),
+        content_type: p.content_type.clone(),
+        user_properties: props_out(&p.user_properties),
+    }
+}
+
+pub fn subscribe_in(s: &VSubscribe) -> Result<SubscribePacket, ErrKind> {
+    let mut subscriptions = Vec::new();
+    for sub in &s.subscriptions {
+        subscriptions.push(Subscription {
+            topic_filter: sub.topic_filter.clone(),
+            qos: qos_in(sub.qos)?,
+            no_local: sub.no_local,
+            retain_as_published: sub.retain_as_published,
+            retain_handling_type: match sub.retain_handling { 0 => RetainHandlingType::SendOnSubscribe, 1 => RetainHandlingType::SendOnSubscribeIfNew, 2 => RetainHandlingType::DontSend, _ => { return Err(ErrKind::Unrepresentable); } },
+        });
+    }
+    Ok(SubscribePacket {
+        packet_id: s.packet_id,
+        subscriptions,
+        subscription_identifier: s.subscription_identifier,
+        user_properties: props_in(&s.user_properties),
+    })
+}
+
+pub fn unsubscribe_in(u: &VUnsubscribe) -> UnsubscribePacket {
+    UnsubscribePacket {
+        packet_id: u.packet_id,
+        topic_filters: u.topic_filters.clone(),
+        user_properties: props_in(&u.user_properties),
+    }
+}
+
+pub fn disconnect_in(d: &VDisconnect) -> Result<DisconnectPacket, ErrKind> {
+    Ok(DisconnectPacket {
+        reason_code: DisconnectReasonCode::try_from(d.reason_code).map_err(|_| ErrKind::Unrepresentable)?,
+        session_expiry_interval_seconds: d.session_expiry,
+        reason_string: d.reason_string.clone(),
+        user_properties: props_in(&d.user_properties),
+        server_reference: d.server_reference.clone(),
+    })
+}
+
+fn connack_in(c: &VConnack) -> Result<ConnackPacket, ErrKind> {
+    Ok(ConnackPacket {
+        session_present: c.session_present,
+        reason_code: ConnectReasonCode::try_from(c.reason_code).map_err(|_| ErrKind::Unrepresentable)?,
+        session_expiry_interval: c.session_expiry,
+        receive_maximum: c.receive_maximum,
+        maximum_qos: match c.maximum_qos { None => None, Some(q) => Some(qos_in(q)?) },
+        retain_available: c.retain_available,
+        maximum_packet_size: c.maximum_packet_size,
+        assigned_client_identifier: c.assigned_client_identifier.clone(),
+        topic_alias_maximum: c.topic_alias_maximum,
+        reason_string: c.reason_string.clone(),
+        user_properties: props_in(&c.user_properties),
+        wildcard_subscriptions_available: c.wildcard_subscriptions_available,
+        subscription_identifiers_available: c.subscription_identifiers_available,
+        shared_subscriptions_available: c.shared_subscriptions_available,
+        server_keep_alive: c.server_keep_alive,
+        response_information: c.response_information.clone(),
+        server_reference: c.server_reference.clone(),
+        authentication_method: c.authentication_method.clone(),
+        authentication_data: c.authentication_data.clone(),
+    })
+}
+
+pub fn connack_out(c: &ConnackPacket) -> VConnack {
+    VConnack {
+        session_present: c.session_present,
+        reason_code: c.reason_code as u8,
+        session_expiry: c.session_expiry_interval,
+        receive_maximum: c.receive_maximum,
+        maximum_qos: c.maximum_qos.map(|q| q as u8),
+        retain_available: c.retain_available,
+        maximum_packet_size: c.maximum_packet_size,
+        assigned_client_identifier: c.assigned_client_identifier.clone(),
+        topic_alias_maximum: c.topic_alias_maximum,
+        reason_string: c.reason_string.clone(),
+        user_properties: props_out(&c.user_properties),
+        wildcard_subscriptions_available: c.wildcard_subscriptions_available,
+        subscription_identifiers_available: c.subscription_identifiers_available,
+        shared_subscriptions_available: c.shared_subscriptions_available,
+        server_keep_alive: c.server_keep_alive,
+        response_information: c.response_information.clone(),
+        server_reference: c.server_reference.clone(),
+        authentication_method: c.authentication_method.clone(),
+        authentication_data: c.authentication_data.clone(),
+    }
+}
+
+fn connect_in(c: &VConnect) -> Result<ConnectPacket, ErrKind> {
+    Ok(ConnectPacket {
+        keep_alive_interval_seconds: c.keep_alive,
+        clean_start: c.clean_start,
+        client_id: c.client_id.clone(),
+        username: c.username.clone(),
+        password: c.password.clone(),
+        session_expiry_interval_seconds: c.session_expiry,
+        request_response_information: c.request_response_information,
+        request_problem_information: c.request_problem_information,
+        receive_maximum: c.receive_maximum,
+        topic_alias_maximum: c.topic_alias_maximum,
+        maximum_packet_size_bytes: c.maximum_packet_size,
+        authentication_method: c.authentication_method.clone(),
+        authentication_data: c.authentication_data.clone(),
+        will_delay_interval_seconds: c.will_delay_interval,
+        will: match &c.will { None => None, Some(w) => Some(publish_in(w)?) },
+        user_properties: props_in(&c.user_properties),
+    })
+}
+
+fn connect_out(c: &ConnectPacket) -> VConnect {
+    VConnect {
+        keep_alive: c.keep_alive_interval_seconds,
+        clean_start: c.clean_start,
+        client_id: c.client_id.clone(),
+        username: c.username.clone(),
+        password: c.password.clone(),
+        session_expiry: c.session_expiry_interval_seconds,
+        request_response_information: c.request_response_information,
+        request_problem_information: c.request_problem_information,
+        receive_maximum: c.receive_maximum,
+        topic_alias_maximum: c.topic_alias_maximum,
+        maximum_packet_size: c.maximum_packet_size_bytes,
+        authentication_method: c.authentication_method.clone(),
+        authentication_data: c.authentication_data.clone(),
+        will_delay_interval: c.will_delay_interval_seconds,
+        will: c.will.as_ref().map(publish_out),
+        user_properties: props_out(&c.user_properties),
+    }
+}
+
+pub fn disconnect_out(d: &DisconnectPacket) -> VDisconnect {
+    VDisconnect {
+        reason_code: d.reason_code as u8,
+        session_expiry: d.session_expiry_interval_seconds,
+        reason_string: d.reason_string.clone(),
+        user_properties: props_out(&d.user_properties),
+        server_reference: d.server_reference.clone(),
+    }
+}
+
+pub fn puback_out(p: &PubackPacket) -> VAck {
+    VAck { packet_id: p.packet_id, reason_code: p.reason_code as u8, reason_string: p.reason_string.clone(), user_properties: props_out(&p.user_properties) }
+}
+pub fn pubrec_out(p: &PubrecPacket) -> VAck {
+    VAck { packet_id: p.packet_id, reason_code: p.reason_code as u8, reason_string: p.reason_string.clone(), user_properties: props_out(&p.user_properties) }
+}
+pub fn pubrel_out(p: &PubrelPacket) -> VAck {
+    VAck { packet_id: p.packet_id, reason_code: p.reason_code as u8, reason_string: p.reason_string.clone(), user_properties: props_out(&p.user_properties) }
+}
+pub fn pubcomp_out(p: &PubcompPacket) -> VAck {
+    VAck { packet_id: p.packet_id, reason_code: p.reason_code as u8, reason_string: p.reason_string.clone(), user_properties: props_out(&p.user_properties) }
+}
+pub fn suback_out(p: &SubackPacket) -> VMultiAck {
+    VMultiAck { packet_id: p.packet_id, reason_string: p.reason_string.clone(), user_properties: props_out(&p.user_properties), reason_codes: p.reason_codes.iter().map(|r| *r as u8).collect() }
+}
+pub fn unsuback_out(p: &UnsubackPacket) -> VMultiAck {
+    VMultiAck { packet_id: p.packet_id, reason_string: p.reason_string.clone(), user_properties: props_out(&p.user_properties), reason_codes: p.reason_codes.iter().map(|r| *r as u8).collect() }
+}
+
+pub(crate) fn pkt_in(p: &Pkt) -> Result<MqttPacket, ErrKind> {
+    let bad = |_| ErrKind::Unrepresentable;
+    Ok(match p {
+        Pkt::Connect(c) => MqttPacket::Connect(connect_in(c)?),
+        Pkt::Connack(c) => MqttPacket::Connack(connack_in(c)?),
+        Pkt::Publish(p) => MqttPacket::Publish(publish_in(p)?),
+        Pkt::Puback(a) => MqttPacket::Puback(PubackPacket { packet_id: a.packet_id, reason_code: PubackReasonCode::try_from(a.reason_code).map_err(bad)?, reason_string: a.reason_string.clone(), user_properties: props_in(&a.user_properties) }),
+        Pkt::Pubrec(a) => MqttPacket::Pubrec(PubrecPacket { packet_id: a.packet_id, reason_code: PubrecReasonCode::try_from(a.reason_code).map_err(bad)?, reason_string: a.reason_string.clone(), user_properties: props_in(&a.user_properties) }),
+        Pkt::Pubrel(a) => MqttPacket::Pubrel(PubrelPacket { packet_id: a.packet_id, reason_code: PubrelReasonCode::try_from(a.reason_code).map_err(bad)?, reason_string: a.reason_string.clone(), user_properties: props_in(&a.user_properties) }),
+        Pkt::Pubcomp(a) => MqttPacket::Pubcomp(PubcompPacket { packet_id: a.packet_id, reason_code: PubcompReasonCode::try_from(a.reason_code).map_err(bad)?, reason_string: a.reason_string.clone(), user_properties: props_in(&a.user_properties) }),
+        Pkt::Subscribe(s) => MqttPacket::Subscribe(subscribe_in(s)?),
+        Pkt::Suback(a) => {
+            let mut reason_codes = Vec::new();
+            for rc in &a.reason_codes { reason_codes.push(SubackReasonCode::try_from(*rc).map_err(bad)?); }
+            MqttPacket::Suback(SubackPacket { packet_id: a.packet_id, reason_string: a.reason_string.clone(), user_properties: props_in(&a.user_properties), reason_codes })
+        }
+        Pkt::Unsubscribe(u) => MqttPacket::Unsubscribe(unsubscribe_in(u)),
+        Pkt::Unsuback(a) => {
+            let mut reason_codes = Vec::new();
+            for rc in &a.reason_codes { reason_codes.push(UnsubackReasonCode::try_from(*rc).map_err(bad)?); }
+            MqttPacket::Unsuback(UnsubackPacket { packet_id: a.packet_id, reason_string: a.reason_string.clone(), user_properties: props_in(&a.user_properties), reason_codes })
+        }
+        Pkt::Pingreq => MqttPacket::Pingreq(PingreqPacket {}),
+        Pkt::Pingresp => MqttPacket::Pingresp(PingrespPacket {}),
+        Pkt::Disconnect(d) => MqttPacket::Disconnect(disconnect_in(d)?),
+        Pkt::Auth(a) => MqttPacket::Auth(AuthPacket { reason_code: AuthenticateReasonCode::try_from(a.reason_code).map_err(bad)?, authentication_method: a.authentication_method.clone(), authentication_data: a.authentication_data.clone(), reason_string: a.reason_string.clone(), user_properties: props_in(&a.user_properties) }),
+    })
+}
+
+pub(crate) fn pkt_out(p: &MqttPacket) -> Pkt {
+    match p {
+        MqttPacket::Connect(c) => Pkt::Connect(connect_out(c)),
+        MqttPacket::Connack(c) => Pkt::Connack(connack_out(c)),
+        MqttPacket::Publish(p) => Pkt::Publish(publish_out(p)),
+        MqttPacket::Puback(a) => Pkt::Puback(puback_out(a)),
+        MqttPacket::Pubrec(a) => Pkt::Pubrec(pubrec_out(a)),
+        MqttPacket::Pubrel(a) => Pkt::Pubrel(pubrel_out(a)),
+        MqttPacket::Pubcomp(a) => Pkt::Pubcomp(pubcomp_out(a)),
+        MqttPacket::Subscribe(s) => Pkt::Subscribe(VSubscribe {
+            packet_id: s.packet_id,
+            subscriptions: s.subscriptions.iter().map(|sub| VSubscription { topic_filter: sub.topic_filter.clone(), qos: sub.qos as u8, no_local: sub.no_local, retain_as_published: sub.retain_as_published, retain_handling: sub.retain_handling_type as u8 }).collect(),
+            subscription_identifier: s.subscription_identifier,
+            user_properties: props_out(&s.user_properties),
+        }),
+        MqttPacket::Suback(a) => Pkt::Suback(suback_out(a)),
+        MqttPacket::Unsubscribe(u) => Pkt::Unsubscribe(VUnsubscribe { packet_id: u.packet_id, topic_filters: u.topic_filters.clone(), user_properties: props_out(&u.user_properties) }),
+        MqttPacket::Unsuback(a) => Pkt::Unsuback(unsuback_out(a)),
+        MqttPacket::Pingreq(_) => Pkt::Pingreq,
+        MqttPacket::Pingresp(_) => Pkt::Pingresp,
+        MqttPacket::Disconnect(d) => Pkt::Disconnect(disconnect_out(d)),
+        MqttPacket::Auth(a) => Pkt::Auth(VAuth { reason_code: a.reason_code as u8, authentication_method: a.authentication_method.clone(), authentication_data: a.authentication_data.clone(), reason_string: a.reason_string.clone(), user_properties: props_out(&a.user_properties) }),
+    }
+}
+
+fn version(mqtt311: bool) -> ProtocolVersion {
+    if mqtt311 { ProtocolVersion::Mqtt311 } else { ProtocolVersion::Mqtt5 }
+}
+
+// ------------------------------------------------------------------------------------------------
+// Stateless codec / validation entry points
+// ------------------------------------------------------------------------------------------------
+
+#[derive(Clone, Debug, Default, PartialEq, Eq)]
+pub struct EncodeOutcome {
+    /// bytes produced by each call of the resumable encoder, in order
+    pub chunks: Vec<Vec<u8>>,
+    /// capacity the destination vector really had for each call
+    pub capacities: Vec<usize>,
+    /// the encoder reported completion
+    pub complete: bool,
+}
+
+/// Runs the crate's resumable encoder over `packet`, handing it one fresh destination vector per
+/// entry of `capacities` (the last entry is repeated until the packet is complete, at most
+/// `max_calls` calls in total).
+pub fn encode(packet: &Pkt, mqtt311: bool, skip_topic: bool, alias: Option<u16>, capacities: &[usize], max_calls: usize) -> Result<EncodeOutcome, ErrKind> {
+    let mqtt_packet = pkt_in(packet)?;
+    let context = EncodingContext {
+        outbound_alias_resolution: OutboundAliasResolution { skip_topic, alias },
+        protocol_version: version(mqtt311),
+    };
+
+    let mut encoder = Encoder::new();
+    encoder.reset(&mqtt_packet, &context).map_err(|e| err_kind(&e))?;
+
+    let mut outcome = EncodeOutcome::default();
+    let mut index = 0;
+    while outcome.chunks.len() < max_calls {
+        let capacity = if capacities.is_empty() { 4096 } else { capacities[usize::min(index, capacities.len() - 1)] };
+        index += 1;
+        let mut dest: Vec<u8> = Vec::with_capacity(capacity);
+        let result = encoder.encode(&mqtt_packet, &mut dest).map_err(|e| err_kind(&e))?;
+        outcome.capacities.push(dest.capacity());
+        outcome.chunks.push(dest);
+        if result == EncodeResult::Complete {
+            outcome.complete = true;
+            break;
+        }
+    }
+
+    Ok(outcome)
+}
+
+/// What `ConnectOptions::to_connect_packet` builds.
+pub fn connect_packet(options: &ConnectOptions, connected_previously: bool) -> Pkt {
+    Pkt::Connect(connect_out(&options.to_connect_packet(connected_previously)))
+}
+
+#[derive(Clone, Debug, Default, PartialEq, Eq, Hash)]
+pub struct DecodeOutcome {
+    pub packets: Vec<Pkt>,
+    pub error: Option<ErrKind>,
+    /// number of chunks that had been fed when the verdict (error) was reached, or chunks.len()
+    pub chunks_consumed: usize,
+    /// number of packets decoded after each chunk
+    pub packets_after_chunk: Vec<usize>,
+}
+
+/// Feeds `chunks` one after the other into a fresh instance of the crate's incremental decoder.
+pub fn decode(mqtt311: bool, maximum_packet_size: u32, chunks: &[&[u8]]) -> DecodeOutcome {
+    let mut decoder = Decoder::new();
+    decoder.reset_for_new_connection();
+
+    let mut outcome = DecodeOutcome::default();
+    for chunk in chunks {
+        let mut decoded_packets = VecDeque::new();
+        let mut context = DecodingContext {
+            maximum_packet_size,
+            protocol_version: version(mqtt311),
+            decoded_packets: &mut decoded_packets,
+        };
+
+        let result = decoder.decode_bytes(chunk, &mut context);
+        outcome.chunks_consumed += 1;
+        for packet in &decoded_packets {
+            outcome.packets.push(pkt_out(packet));
+        }
+        outcome.packets_after_chunk.push(outcome.packets.len());
+        if let Err(error) = result {
+            outcome.error = Some(err_kind(&error));
+            break;
+        }
+    }
+
+    outcome
+}
+
+/// The validation applied by the public submit entry points (static rules).
+pub fn validate_submission(packet: &Pkt) -> Result<(), ErrKind> {
+    let mqtt_packet = pkt_in(packet)?;
+    validate_packet_outbound(&mqtt_packet).map_err(|e| err_kind(&e))
+}
+
+/// The last-chance validation applied when an operation is dequeued (connection-dependent limits).
+pub fn validate_at_send(packet: &Pkt, settings: Option<&NegotiatedSettings>, connect_options: &ConnectOptions, skip_topic: bool, alias: Option<u16>) -> Result<(), ErrKind> {
+    let mqtt_packet = pkt_in(packet)?;
+    let context = OutboundValidationContext {
+        negotiated_settings: settings,
+        connect_options: Some(connect_options),
+        outbound_alias_resolution: Some(OutboundAliasResolution { skip_topic, alias }),
+    };
+    validate_packet_outbound_internal(&mqtt_packet, &context).map_err(|e| err_kind(&e))
+}
+
+/// The validation applied to decoded inbound packets.
+pub fn validate_inbound(packet: &Pkt, settings: Option<&NegotiatedSettings>) -> Result<(), ErrKind> {
+    let mqtt_packet = pkt_in(packet)?;
+    let context = InboundValidationContext { negotiated_settings: settings };
+    validate_packet_inbound_internal(&mqtt_packet, &context).map_err(|e| err_kind(&e))
+}
+
+// ------------------------------------------------------------------------------------------------
+// Read accessors for option types
+// ------------------------------------------------------------------------------------------------
+
+#[derive(Clone, Debug, Default, PartialEq, Eq, Hash)]
+pub struct VConnectOptions {
+    pub keep_alive: Option<u16>,
+    /// 0 = PostSuccess, 1 = Always, 2 = Never
+    pub rejoin: u8,
+    pub client_id: Option<String>,
+    pub username: Option<String>,
+    pub password: Option<Vec<u8>>,
+    pub session_expiry: Option<u32>,
+    pub request_response_information: Option<bool>,
+    pub request_problem_information: Option<bool>,
+    pub receive_maximum: Option<u16>,
+    pub topic_alias_maximum: Option<u16>,
+    pub maximum_packet_size: Option<u32>,
+    pub will_delay_interval: Option<u32>,
+    pub will: Option<VPublish>,
+    pub user_properties: VProps,
+}
+
+pub fn connect_options_view(o: &ConnectOptions) -> VConnectOptions {
+    VConnectOptions {
+        keep_alive: o.keep_alive_interval_seconds,
+        rejoin: match o.rejoin_session_policy { RejoinSessionPolicy::PostSuccess => 0, RejoinSessionPolicy::Always => 1, RejoinSessionPolicy::Never => 2 },
+        client_id: o.client_id.clone(),
+        username: o.username.clone(),
+        password: o.password.clone(),
+        session_expiry: o.session_expiry_interval_seconds,
+        request_response_information: o.request_response_information,
+        request_problem_information: o.request_problem_information,
+        receive_maximum: o.receive_maximum,
+        topic_alias_maximum: o.topic_alias_maximum,
+        maximum_packet_size: o.maximum_packet_size_bytes,
+        will_delay_interval: o.will_delay_interval_seconds,
+        will: o.will.as_ref().map(publish_out),
+        user_properties: props_out(&o.user_properties),
+    }
+}
+
+#[derive(Clone, Debug, PartialEq, Eq, Hash)]
+pub struct VClientOptions {
+    /// 0 PreserveAll, 1 PreserveAcknowledged, 2 PreserveQos1PlusPublishes, 3 PreserveNothing
+    pub offline_queue_policy: u8,
+    pub connect_timeout: Duration,
+    pub ping_timeout: Duration,
+    pub has_alias_resolver_factory: bool,
+    /// 0 None, 1 Uniform
+    pub jitter: u8,
+    pub base_reconnect_period: Duration,
+    pub max_reconnect_period: Duration,
+    pub reconnect_stability_reset_period: Duration,
+    pub mqtt311: bool,
+    /// None unset, Some(0) None, Some(1) OneAtATime
+    pub drain_policy: Option<u8>,
+    pub max_interrupted_retries: Option<u32>,
+}
+
+pub fn offline_policy_code(p: OfflineQueuePolicy) -> u8 {
+    match p {
+        OfflineQueuePolicy::PreserveAll => 0,
+        OfflineQueuePolicy::PreserveAcknowledged => 1,
+        OfflineQueuePolicy::PreserveQos1PlusPublishes => 2,
+        OfflineQueuePolicy::PreserveNothing => 3,
+    }
+}
+
+pub fn client_options_view(o: &MqttClientOptions) -> VClientOptions {
+    VClientOptions {
+        offline_queue_policy: offline_policy_code(o.offline_queue_policy),
+        connect_timeout: o.connect_timeout,
+        ping_timeout: o.ping_timeout,
+        has_alias_resolver_factory: o.outbound_alias_resolver_factory.is_some(),
+        jitter: match o.reconnect_options.reconnect_period_jitter { ExponentialBackoffJitterType::None => 0, ExponentialBackoffJitterType::Uniform => 1 },
+        base_reconnect_period: o.reconnect_options.base_reconnect_period,
+        max_reconnect_period: o.reconnect_options.max_reconnect_period,
+        reconnect_stability_reset_period: o.reconnect_options.reconnect_stability_reset_period,
+        mqtt311: o.protocol_mode == ProtocolMode::Mqtt311,
+        drain_policy: o.post_reconnect_queue_drain_policy.map(|p| if p == PostReconnectQueueDrainPolicy::OneAtATime { 1 } else { 0 }),
+        max_interrupted_retries: o.max_interrupted_retries,
+    }
+}
